@@ -66,10 +66,6 @@ where
     let mut half_interval = (left - right) * half;
     let mut middle = left + half_interval;
 
-    if middle.abs() <= tol {
-        return Ok(middle);
-    }
-
     while n <= n_max {
         let f_p = f(middle);
         if (f_p * f_a).is_sign_positive() {
@@ -83,7 +79,7 @@ where
 
         let middle_new = left + half_interval;
 
-        if (middle - middle_new).abs() / middle.abs() < tol || middle_new.abs() < tol {
+        if (middle - middle_new).abs() < tol * middle_new.abs().max(N::one()) {
             return Ok(middle_new);
         }
 
